@@ -31,6 +31,7 @@ def run(repo, run, tier):
     clipping(repo, run, fn)
     t_eval_rule(repo, run, fn)
     t_eval_multiset(repo, run, fn)
+    first_step_bounded(repo, run, fn)
 
 
 def construction(repo, run, fn):
@@ -306,3 +307,79 @@ def t_eval_multiset(repo, run, fn):
     if not okl:
         run.report("C18.7", DS, loops[0] if loops else fn, "the requested times are not visited by a single `for t in t_eval` loop (a selection or a transformed "
                                                           "sequence is iterated instead)", text="t_eval loop iterable")
+
+
+# ------------------------------------------------------------------------------------------------
+def first_step_bounded(repo, run, fn):
+    """'no recorded step is longer than max_step': the clipping callback runs only AFTER a step has been recorded, so the FIRST step is bounded only if
+    the initial step handed to OdeSystem is.  The value of the `dt` argument is followed back through the straight-line assignments before the
+    construction (sequential substitution) and judged as a min/max/clip expression: it must be bounded above by max_step whatever the user's
+    first_step is."""
+    from ..front import bind_call, clone
+    rid = run.rule("C18.8", "the initial step given to OdeSystem is bounded above by max_step on every path (minimum(., max_step) / clip applied to the user's "
+                            "first_step, not only to its default): the clipping callback cannot act before the first step is recorded", floor=2)
+    calls = [c for c in ast.walk(fn) if isinstance(c, ast.Call) and dotted(c.func) == "OdeSystem"]
+    if len(calls) != 1:
+        raise AnalysisError("solve_ivp: expected one OdeSystem(...) construction")
+    kw = bind_call(calls[0], repo.get(DS, "OdeSystem.__init__"))
+    if "dt" not in kw:
+        raise AnalysisError("solve_ivp: OdeSystem(...) is not given dt")
+    top = calls[0]
+    while top._parent is not fn:
+        top = top._parent
+    env, opaque = {}, set()
+
+    def subst(node):
+        class T(ast.NodeTransformer):
+            def visit_Name(self, n):
+                if isinstance(n.ctx, ast.Load) and n.id in env and n.id not in opaque:
+                    return clone(env[n.id])
+                return n
+        return T().visit(clone(node))
+    for st in fn.body:
+        if st is top:
+            break
+        if isinstance(st, ast.Assign) and len(st.targets) == 1 and isinstance(st.targets[0], ast.Name):
+            env[st.targets[0].id] = subst(st.value)
+            opaque.discard(st.targets[0].id)
+        else:
+            for n in ast.walk(st):      # anything assigned under control flow is not followed
+                if isinstance(n, ast.Name) and isinstance(n.ctx, ast.Store):
+                    opaque.add(n.id)
+
+    def opt_key(e):
+        if isinstance(e, ast.Call) and isinstance(e.func, ast.Attribute) and e.func.attr == "get" and e.args and isinstance(e.args[0], ast.Constant):
+            return e.args[0].value
+        return None
+    value = subst(kw["dt"])
+
+    def bounded(e):
+        """True: e <= max_step always (given min_step <= max_step); False otherwise / unknown"""
+        if opt_key(e) in ("max_step", "min_step"):
+            return True
+        if isinstance(e, ast.Call):
+            f = fname(e)
+            if f in ("minimum", "min", "fmin") and len(e.args) >= 2:
+                return any(bounded(a) for a in e.args)
+            if f in ("maximum", "max", "fmax") and len(e.args) >= 2:
+                return all(bounded(a) for a in e.args)
+            if f == "clip":
+                hi = [k.value for k in e.keywords if k.arg in ("max", "a_max")] or (e.args[2:3])
+                return bool(hi) and bounded(hi[0])
+            if f in ("asarray", "array", "float", "abs", "absolute") and e.args:
+                return bounded(e.args[0])
+        if isinstance(e, ast.IfExp):
+            return bounded(e.body) and bounded(e.orelse)
+        return False
+    mentions_first = any(opt_key(n) == "first_step" for n in ast.walk(value))
+    run.judged(rid, "dt argument resolves to `%s`" % src(value)[:160], nontrivial=False)
+    run.judged(rid, "the user's first_step reaches the initial step", ok=mentions_first)
+    if not mentions_first:
+        run.report("C18.8", DS, calls[0], "the initial step given to OdeSystem (`%s`) does not come from options['first_step']" % src(value)[:100], text="first_step not used")
+        return
+    ok = bounded(value)
+    run.judged(rid, "initial step bounded above by max_step for every first_step", ok=ok)
+    if not ok:
+        run.report("C18.8", DS, calls[0], "the initial step `%s` is not bounded by max_step when the caller passes first_step (the bound is applied, if at all, only to the "
+                                          "default): the first recorded step is then as long as first_step, and the clipping callback acts only from the second step on" % src(value)[:160],
+                   text="initial step not bounded by max_step")
